@@ -194,7 +194,7 @@ theorem prune_filter {o : Opts} {api api' : Api} (hc : api.Consistent) (h : prun
     ∃ f, stageParse o = .ok f ∧
       (∀ c cs, o.filter = some (c :: cs) → ∃ e, parseFilter (c :: cs) = .ok e ∧ f = some e) ∧
       api'.namespaces.map (·.routes) = api.namespaces.map (fun ns =>
-        (ns.routes.filter (pass f)).map (Route.restrict (wantedAttrs o.attributes api.schema))) ∧
+        (ns.routes.filter (pass f)).map (Route.restrict (wantedAttrs o.attributes api.allFields))) ∧
       (∀ e, f = some e → ∀ (r : Route) v, evalSpec e r.attrs = some v → pass f r = v) := by
   obtain ⟨f, hf, rfl⟩ := prune_eq_spec hc h
   refine ⟨f, hf, ?_, ?_, ?_⟩
@@ -222,7 +222,7 @@ theorem prune_w {o : Opts} {api api' : Api} (hc : api.Consistent) (h : prune o a
     ∃ f, stageParse o = .ok f ∧
       api'.namespaces.map (fun ns => (ns.routes, ns.routeByName, ns.routesByName)) = api.namespaces.map (fun ns =>
         if ns.name ∈ o.whitelist then
-          let rs := (ns.routes.filter (pass f)).map (Route.restrict (wantedAttrs o.attributes api.schema))
+          let rs := (ns.routes.filter (pass f)).map (Route.restrict (wantedAttrs o.attributes api.allFields))
           (rs, (index rs).1, (index rs).2)
         else ([], [], [])) := by
   obtain ⟨f', _, hwl, _, _, _⟩ := prune_ok h
@@ -252,7 +252,7 @@ theorem prune_b {o : Opts} {api api' : Api} (hc : api.Consistent) (h : prune o a
       api'.namespaces.map (fun ns => (ns.routes, ns.routeByName, ns.routesByName)) = api.namespaces.map (fun ns =>
         if ns.name ∈ o.blacklist then ([], [], [])
         else
-          let rs := (ns.routes.filter (pass f)).map (Route.restrict (wantedAttrs o.attributes api.schema))
+          let rs := (ns.routes.filter (pass f)).map (Route.restrict (wantedAttrs o.attributes api.allFields))
           (rs, (index rs).1, (index rs).2)) := by
   obtain ⟨f', _, _, hbl, _, _⟩ := prune_ok h
   obtain ⟨f, hf, rfl⟩ := prune_eq_spec hc h
@@ -270,18 +270,20 @@ theorem prune_b_unknown {o : Opts} {api : Api} (h : ∃ n ∈ o.blacklist, api.h
     ∃ err, prune o api = .error err :=
   prune_error_of_blacklist h
 
-/-- `-a`: the visible attributes are those named (all of the schema with `:all`, none without
-`-a`): the route schema keeps exactly those fields, in order, and every route the backend sees has
-exactly those of its attributes. Without `:all`, every name given must be a schema field. -/
+/-- `-a`: the visible attributes are those named (every attribute of the schema, inherited fields of
+`stone_cfg.Route` included, with `:all`; none without `-a`): every name given is an attribute of the
+schema, the route schema keeps exactly the selected ones of its own fields, in order, and every route
+the backend sees has exactly the selected ones of its attributes. -/
 theorem prune_attrs {o : Opts} {api api' : Api} (hc : api.Consistent) (h : prune o api = .ok api') :
-    (∀ n, n ∈ wantedAttrs o.attributes api.schema ↔
-      (allAttributes ∈ o.attributes ∧ n ∈ api.schema) ∨ (allAttributes ∉ o.attributes ∧ n ∈ o.attributes)) ∧
-    (∀ n ∈ wantedAttrs o.attributes api.schema, n ∈ api.schema) ∧
-    api'.schema = api.schema.filter (fun n => n ∈ wantedAttrs o.attributes api.schema) ∧
-    api'.schemaByName = api.schemaByName.filter (fun n => n ∈ wantedAttrs o.attributes api.schema) ∧
+    (∀ n, n ∈ wantedAttrs o.attributes api.allFields ↔
+      (allAttributes ∈ o.attributes ∧ (n ∈ api.allFields ∨ (n ∈ o.attributes ∧ n ≠ allAttributes))) ∨
+      (allAttributes ∉ o.attributes ∧ n ∈ o.attributes)) ∧
+    (∀ n ∈ wantedAttrs o.attributes api.allFields, n ∈ api.allFields) ∧
+    api'.schema = api.schema.filter (fun n => n ∈ wantedAttrs o.attributes api.allFields) ∧
+    api'.schemaByName = api.schemaByName.filter (fun n => n ∈ wantedAttrs o.attributes api.allFields) ∧
     (∀ ns' ∈ api'.namespaces, ∀ r' ∈ ns'.routes, ∃ ns ∈ api.namespaces, ∃ r ∈ ns.routes,
       ns.name = ns'.name ∧ r'.name = r.name ∧ r'.version = r.version ∧
-      r'.attrs = r.attrs.filter (fun kv => kv.1 ∈ wantedAttrs o.attributes api.schema)) := by
+      r'.attrs = r.attrs.filter (fun kv => kv.1 ∈ wantedAttrs o.attributes api.allFields)) := by
   obtain ⟨f', _, _, _, hall, _⟩ := prune_ok h
   obtain ⟨f, hf, rfl⟩ := prune_eq_spec hc h
   refine ⟨?_, hall, rfl, rfl, ?_⟩
@@ -289,7 +291,17 @@ theorem prune_attrs {o : Opts} {api api' : Api} (hc : api.Consistent) (h : prune
     unfold wantedAttrs
     by_cases h0 : o.attributes = []
     · simp [h0]
-    · by_cases ha : allAttributes ∈ o.attributes <;> simp [h0, ha]
+    · by_cases ha : allAttributes ∈ o.attributes
+      · simp only [h0, ha, if_true, if_false, List.mem_append, List.mem_filter, not_true_eq_false, false_and, or_false,
+          true_and, ne_eq, decide_not, Bool.not_eq_eq_eq_not, Bool.not_true, decide_eq_false_iff_not]
+        constructor
+        · rintro (⟨h1, h2⟩ | h1)
+          · exact Or.inr ⟨h1, h2⟩
+          · exact Or.inl h1
+        · rintro (h1 | ⟨h1, h2⟩)
+          · exact Or.inr h1
+          · exact Or.inl ⟨h1, h2⟩
+      · simp [h0, ha]
   · intro ns' hns' r' hr'
     simp only [pruneSpec, List.mem_map] at hns'
     obtain ⟨ns, hns, rfl⟩ := hns'
@@ -300,62 +312,90 @@ theorem prune_attrs {o : Opts} {api api' : Api} (hc : api.Consistent) (h : prune
       obtain ⟨r, ⟨hr, _⟩, rfl⟩ := hr'
       exact ⟨ns, hns, r, hr, rfl, rfl, rfl, rfl⟩
 
+/-- when the run succeeds, the set `attrs` of `main` is the selection the property speaks of -/
+theorem mem_wantedAttrs_iff_wantedAll {o : Opts} {api : Api}
+    (hall : ∀ n ∈ wantedAttrs o.attributes api.allFields, n ∈ api.allFields) (n : Name) :
+    n ∈ wantedAttrs o.attributes api.allFields ↔ n ∈ wantedAll o.attributes api := by
+  have := hall n
+  unfold wantedAttrs at this ⊢
+  unfold wantedAll
+  by_cases h0 : o.attributes = []
+  · simp [h0]
+  · by_cases ha : allAttributes ∈ o.attributes
+    · simp only [h0, ha, if_true, if_false] at this ⊢
+      constructor
+      · exact this
+      · intro hn; exact List.mem_append.mpr (Or.inr hn)
+    · simp [h0, ha]
+
 /-- The property read over ALL attributes a route can carry (`route_schema.all_fields`, inherited
-fields of `stone_cfg.Route` included): the schema and every route show exactly the `-a` selection.
-PARTIAL: proved for a schema without inherited fields. `cli.main` only ever looks at
-`route_schema.fields`; with `struct Route extends other.Base` the three witnesses below show what
-goes wrong (each is reported by the harness as a failing input of the property). -/
-theorem prune_attrs_all_fields_partial {o : Opts} {api api' : Api} (hc : api.Consistent)
-    (hflat : api.schemaInherited = []) (h : prune o api = .ok api') :
+fields of `stone_cfg.Route` included): every name given with `-a` is one of them and every route
+shows exactly the `-a` selection of its attributes. (Before the repair of `cli.main` this held for a
+schema without inherited fields only; the two old witnesses are kept below as regression examples.) -/
+theorem prune_attrs_all_fields {o : Opts} {api api' : Api} (hc : api.Consistent) (h : prune o api = .ok api') :
     (∀ n ∈ wantedAll o.attributes api, n ∈ api.allFields) ∧
-    api'.allFields = api.allFields.filter (fun n => n ∈ wantedAll o.attributes api) ∧
     (∀ ns' ∈ api'.namespaces, ∀ r' ∈ ns'.routes, ∃ ns ∈ api.namespaces, ∃ r ∈ ns.routes,
       ns.name = ns'.name ∧ r'.name = r.name ∧ r'.version = r.version ∧
       r'.attrs = r.attrs.filter (fun kv => kv.1 ∈ wantedAll o.attributes api)) := by
-  have hw : wantedAll o.attributes api = wantedAttrs o.attributes api.schema := by
-    simp [wantedAll, wantedAttrs, Api.allFields, hflat]
-  obtain ⟨_, h2, h3, _, h5⟩ := prune_attrs hc h
+  obtain ⟨_, h2, _, _, h5⟩ := prune_attrs hc h
+  have hiff := mem_wantedAttrs_iff_wantedAll h2
+  refine ⟨fun n hn => h2 n ((hiff n).mpr hn), ?_⟩
+  intro ns' hns' r' hr'
+  obtain ⟨ns, hns, r, hr, e1, e2, e3, e4⟩ := h5 ns' hns' r' hr'
+  refine ⟨ns, hns, r, hr, e1, e2, e3, ?_⟩
+  rw [e4]
+  apply List.filter_congr
+  intro kv _
+  exact decide_eq_decide.mpr (hiff kv.1)
+
+/-- The same for the schema itself: `route_schema.all_fields` shows exactly the `-a` selection.
+PARTIAL: proved for a schema without inherited fields. `cli.main` takes the unselected names out of
+`route_schema.fields`; the fields `stone_cfg.Route` inherits live in the parent struct (a user type
+the backends generate) and stay visible whatever `-a` says - witness below (reported by the harness
+as a failing input of the property). -/
+theorem prune_schema_all_fields_partial {o : Opts} {api api' : Api} (hc : api.Consistent)
+    (hflat : api.schemaInherited = []) (h : prune o api = .ok api') :
+    api'.allFields = api.allFields.filter (fun n => n ∈ wantedAll o.attributes api) := by
+  obtain ⟨_, h2, h3, _, _⟩ := prune_attrs hc h
+  have hiff := mem_wantedAttrs_iff_wantedAll h2
   obtain ⟨f, _, hspec⟩ := prune_eq_spec hc h
   have hinh : api'.schemaInherited = [] := by rw [hspec]; simp [pruneSpec, hflat]
-  refine ⟨?_, ?_, ?_⟩
-  · rw [hw]; simpa [Api.allFields, hflat] using h2
-  · rw [hw]; simp [Api.allFields, hflat, hinh, h3]
-  · rw [hw]; exact h5
+  simp only [Api.allFields, hflat, hinh, List.nil_append, h3]
+  apply List.filter_congr
+  intro n _
+  have := hiff n
+  simp only [Api.allFields, hflat, List.nil_append] at this
+  exact decide_eq_decide.mpr this
 
-/-- witness 1: an inherited attribute cannot be selected — `-a p` for an inherited `p` is refused -/
-theorem inherited_attribute_rejected :
-    ∃ (o : Opts) (api : Api) (err : CliError), (∀ n ∈ o.attributes, n ∈ api.allFields) ∧ prune o api = .error err :=
-  ⟨{ attributes := [['p']] }, ⟨[], [['n']], [['n']], [['p']]⟩, .attributeUndefined [['p']], by decide, rfl⟩
+/-- regression (was witness 1, `inherited_attribute_rejected`): an inherited attribute can be
+selected - `-a p` for an inherited `p` keeps `p` on the routes and nothing of the own fields -/
+example :
+    prune { attributes := [['p']] }
+      ⟨[⟨['a'], [⟨['r'], 1, [(['p'], .int 1), (['n'], .int 2)]⟩], [], [], []⟩], [['n']], [['n']], [['p']]⟩
+      = .ok ⟨[⟨['a'], [⟨['r'], 1, [(['p'], .int 1)]⟩], [], [], []⟩], [], [], [['p']]⟩ := rfl
 
-/-- witness 2: `:all` hides the inherited attributes of every route -/
-theorem inherited_attribute_dropped_by_all :
-    ∃ (o : Opts) (api api' : Api), allAttributes ∈ o.attributes ∧ prune o api = .ok api' ∧
-      ∃ ns ∈ api.namespaces, ∃ r ∈ ns.routes, ∃ kv ∈ r.attrs, kv.1 ∈ api.allFields ∧
-        ∀ ns' ∈ api'.namespaces, ∀ r' ∈ ns'.routes, kv ∉ r'.attrs :=
-  ⟨{ attributes := [allAttributes] },
-    ⟨[⟨['a'], [⟨['r'], 1, [(['p'], .int 1), (['n'], .int 2)]⟩], [], [], []⟩], [['n']], [['n']], [['p']]⟩,
-    ⟨[⟨['a'], [⟨['r'], 1, [(['n'], .int 2)]⟩], [], [], []⟩], [['n']], [['n']], [['p']]⟩,
-    by decide, rfl, _, List.mem_singleton.mpr rfl, _, List.mem_singleton.mpr rfl, (['p'], .int 1), by decide, by decide,
-    by decide⟩
+/-- regression (was witness 2, `inherited_attribute_dropped_by_all`): `:all` keeps the inherited
+attributes of every route -/
+example :
+    prune { attributes := [allAttributes] }
+      ⟨[⟨['a'], [⟨['r'], 1, [(['p'], .int 1), (['n'], .int 2)]⟩], [], [], []⟩], [['n']], [['n']], [['p']]⟩
+      = .ok ⟨[⟨['a'], [⟨['r'], 1, [(['p'], .int 1), (['n'], .int 2)]⟩], [], [], []⟩], [['n']], [['n']], [['p']]⟩ := rfl
 
-/-- witness 3: without any `-a` the inherited fields are still there in the schema -/
+/-- witness: without any `-a` the inherited fields are still there in the schema -/
 theorem inherited_field_stays_visible :
     ∃ (o : Opts) (api api' : Api), o.attributes = [] ∧ prune o api = .ok api' ∧ api'.allFields ≠ [] :=
   ⟨{}, ⟨[], [['n']], [['n']], [['p']]⟩, ⟨[], [], [], [['p']]⟩, rfl, rfl, by decide⟩
 
-/-- An attribute name unknown to the schema is an error — proved when `:all` is not among the `-a`
-values. PARTIAL: with `:all` present the other names are never looked at (see `all_masks_unknown`);
-the harness reports that case as a failing input of the property. -/
-theorem prune_attrs_unknown_partial {o : Opts} {api : Api} (hall : allAttributes ∉ o.attributes)
-    (h : ∃ n ∈ o.attributes, n ∉ api.schema) : ∃ err, prune o api = .error err :=
-  prune_error_of_attribute hall h
+/-- An attribute name unknown to the schema (own and inherited fields) is an error, also next to
+`:all`. (Before the repair of `cli.main` the names given next to `:all` were never looked at.) -/
+theorem prune_attrs_unknown {o : Opts} {api : Api}
+    (h : ∃ n ∈ o.attributes, n ≠ allAttributes ∧ n ∉ api.allFields) : ∃ err, prune o api = .error err :=
+  prune_error_of_attribute h
 
-/-- witness that the full statement fails in the code as it is: `-a :all -a bogus` is accepted -/
-theorem all_masks_unknown :
-    ∃ (o : Opts) (api api' : Api), allAttributes ∈ o.attributes ∧
-      (∃ n ∈ o.attributes, n ≠ allAttributes ∧ n ∉ api.schema) ∧ prune o api = .ok api' :=
-  ⟨{ attributes := [allAttributes, ['b', 'o', 'g', 'u', 's']] }, ⟨[], [['n']], [['n']], []⟩, ⟨[], [['n']], [['n']], []⟩,
-    by decide, ⟨['b', 'o', 'g', 'u', 's'], by decide, by decide, by decide⟩, rfl⟩
+/-- regression (was the witness `all_masks_unknown`): `-a :all -a bogus` is refused -/
+example :
+    prune { attributes := [allAttributes, ['b', 'o', 'g', 'u', 's']] } ⟨[], [['n']], [['n']], []⟩
+      = .error (.attributeUndefined [['b', 'o', 'g', 'u', 's']]) := rfl
 
 /-- The by-name tables (`route_by_name`, `routes_by_name`) of every namespace the backend sees are
 exactly the index `add_route` builds for the route list it sees — provided they were for the Api
